@@ -19,6 +19,7 @@ import (
 	"strconv"
 	"strings"
 	"sync"
+	"time"
 
 	"github.com/junegunn/fzf/src/tui"
 )
@@ -37,6 +38,24 @@ func init() {
 	if path := os.Getenv("FZF_VERIF_TRACE"); path != "" {
 		if f, err := os.OpenFile(path, os.O_APPEND|os.O_CREATE|os.O_WRONLY, 0600); err == nil {
 			verifFile = f
+		}
+	}
+	// FZF_VERIF_GATE_DELAY=name=millis[,name=millis]: the named gates sleep, so that a driver of the
+	// binary can make e.g. every chunk of a scan take a known time
+	if spec := os.Getenv("FZF_VERIF_GATE_DELAY"); spec != "" {
+		delays := map[string]time.Duration{}
+		for _, part := range strings.Split(spec, ",") {
+			kv := strings.SplitN(part, "=", 2)
+			if len(kv) == 2 {
+				if ms, err := strconv.Atoi(kv[1]); err == nil && ms > 0 {
+					delays[kv[0]] = time.Duration(ms) * time.Millisecond
+				}
+			}
+		}
+		verifGateFn = func(name string, a int, b int) {
+			if d, ok := delays[name]; ok {
+				time.Sleep(d)
+			}
 		}
 	}
 }
